@@ -71,3 +71,23 @@ package gnosis
 //@   ensures ret0 == 0 ==> acceptedSharesG(sharesOf(msg))
 //@ func (*DecryptionKeySharesHandler).HandleMessage
 //@   requires h != nil && isSharesMsg(msg) && acceptedSharesG(sharesOf(msg))
+//@
+//@ // ---- C15: reorg depth and transaction structure of the sequencer syncer ------------------------------
+//@ func getNumReorgedBlocks
+//@   requires syncedUntil != nil && header != nil && header.Number != nil && bigval(header.Number) >= 0 && bigval(header.Number) < 9223372036854775808 && syncedUntil.BlockNumber >= 0 && syncedUntil.BlockNumber < 9223372036854775807
+//@   ensures 0 <= ret0 && ret0 <= syncedUntil.BlockNumber
+//@   ensures ret0 > 0 ==> (bigval(header.Number) == syncedUntil.BlockNumber + 1 && bytes_content(header.ParentHash, 0, 32) != content(syncedUntil.BlockHash))
+//@   ensures (bigval(header.Number) == syncedUntil.BlockNumber + 1 && bytes_content(header.ParentHash, 0, 32) != content(syncedUntil.BlockHash) && syncedUntil.BlockNumber >= 1) ==> ret0 >= 1
+// A-bindings: the generated contract bindings return non-nil events with a non-nil gas limit
+//@ func (*SequencerSyncer).fetchEvents
+//@   trusted
+//@   ensures ret1 == nil ==> (forall i :: 0 <= i && i < len(ret0) ==> (ret0[i] != nil && ret0[i].GasLimit != nil))
+//@ func (*SequencerSyncer).filterEvents
+//@   requires forall i :: 0 <= i && i < len(events) ==> (events[i] != nil && events[i].GasLimit != nil)
+//@   ensures forall i :: 0 <= i && i < len(ret0) ==> (ret0[i] != nil && ret0[i].GasLimit != nil)
+//@   invariant fresh(filteredEvents) || len(filteredEvents) == 0
+//@   invariant forall j :: 0 <= j && j < len(filteredEvents) ==> (filteredEvents[j] != nil && filteredEvents[j].GasLimit != nil)
+//@ func (*SequencerSyncer).syncRange
+//@   requires s != nil && s.DBPool != nil && s.ExecutionClient != nil && s.Contract != nil && s.SecondsPerSlot > 0
+//@   ensures ret0 == nil ==> evcount("commit") == old(evcount("commit")) + 1
+//@   opt frame = off
